@@ -51,6 +51,16 @@ def ck(t, l, i):
     return "%d|%s|%s" % (int(t), fnum(l), fnum(i))
 
 
+def rename_leadtime(inp, old, new):
+    """Move every cell of lead time `old` to lead time `new` (the input then has the same number of lead times)."""
+    cells = {}
+    for k, c in inp["cells"].items():
+        t, l, s = k.split("|")
+        cells[("%s|%s|%s" % (t, fnum(new), s)) if l == fnum(old) else k] = c
+    inp["cells"] = cells
+    inp["leadtimes"] = sorted(new if x == old else x for x in inp["leadtimes"])
+
+
 def fnum(x):
     """Short exact decimal for our 1/8-grid numbers (and ints)."""
     if x is None:
